@@ -201,7 +201,8 @@ Proof.
   intros W OK s'. pose proof (wf_nd _ _ W) as ND.
   assert (VAL : forall (vs : list (list Z)) i v, length vs = length os -> nth_error vs i = Some v -> nth i vs [] = v)
     by (intros vs i v _ H; apply nth_error_nth; exact H).
-  destruct o as [vs|vs|ts|]; cbn [assoc_step] in s'.
+  destruct o as [vs|vs|ts| |]; cbn [assoc_step] in s'.
+  5:{ split; [exact W|]. split; [intros i ow Ho t; reflexivity | intros _ x Hx; exact Hx]. }
   - (* Append *)
     destruct OK as [Lv [DJ [NS One]]].
     destruct Hk as [K1|K1].
